@@ -48,6 +48,7 @@ type OracleOut struct {
 	Hung     int      `json:"hung"`            // index (in IDs) of a call that never returned, -1 if none
 	Crash    string   `json:"crash,omitempty"` // filled by the driver: the oracle process died (Go runtime fatal error in library code)
 	CrashAt  int      `json:"crash_at,omitempty"`
+	SiteBits []uint8  `json:"site_bits,omitempty"` // instrumented pass: yield sites reached
 }
 
 // Event mirrors simrt.Event.
